@@ -226,13 +226,15 @@ def driveOut (eps : Rat) (nm : Nat) (t : Tab) : Tab :=
       | none => t
     else t) t
 
-/-- `_phase1(matrix, basis, basis_set, m, n, eps, max_iter)`. -/
-def phase1 (eps : Rat) (maxIter n m : Nat) (t : Tab) : P1 :=
+/-- rows with `matrix[i][-1] < -eps`, in order; the k-th gets artificial column `n + m + k` -/
+def flippedRows (eps : Rat) (m : Nat) (t : Tab) : List Nat :=
+  (List.range m).filter fun i => decide (lastR (t.rows.getD i []) < -eps)
+
+/-- the phase-1 tableau: flipped rows negated, one artificial column per flipped row, artificial
+basis, objective row `∑ artificials` priced out (first half of `_phase1`) -/
+def artTab (n m : Nat) (flipped : List Nat) (t : Tab) : Tab :=
   let nm := n + m
-  -- rows with `matrix[i][-1] < -eps`, in order; the k-th gets artificial column `nm + k`
-  let flipped := (List.range m).filter fun i => decide (lastR (t.rows.getD i []) < -eps)
   let K := flipped.length
-  if K = 0 then ⟨.OPTIMAL, 0, t, t.obj, false⟩ else
   let rows1 := t.rows.mapIdx fun i row =>
     match flipped.idxOf? i with
     | some k => (row.take nm).map (fun v => v * -1) ++ unitV K k ++ [lastR row * -1]
@@ -245,22 +247,34 @@ def phase1 (eps : Rat) (maxIter n m : Nat) (t : Tab) : P1 :=
   let obj0 : List Rat := (List.range ncols).map fun j => if nm ≤ j ∧ j < nm + K then 1 else 0
   let obj1 := (List.range m).foldl (fun o i =>
     if basis1.getD i 0 ≥ nm then subRow o (rows1.getD i []) 1 else o) obj0
-  let r := phase2 eps maxIter 0 ⟨rows1, obj1, basis1⟩
-  let near := phase2Near eps maxIter ⟨rows1, obj1, basis1⟩
-  let t2 := r.tab
-  if lastR t2.obj < -eps then
-    -- out of iterations before phase 1 finished: infeasibility is not established
-    ⟨if r.status = .MAX_ITER then .MAX_ITER else .INFEASIBLE, r.iters, t2, t2.obj, near⟩ else
-  let t3 := driveOut eps nm t2
-  -- remove the artificial columns, restore the original objective row
+  ⟨rows1, obj1, basis1⟩
+
+/-- remove the artificial columns and restore the original objective row, priced out on the basic
+columns (last part of `_phase1`) -/
+def restoreTab (eps : Rat) (nm m : Nat) (origObj : List Rat) (t3 : Tab) : Tab :=
   let rows4 := t3.rows.map fun row => row.take nm ++ [lastR row]
   let obj4 := (List.range m).foldl (fun o i =>
     let var := t3.basis.getD i 0
     if var < nm then
       let cost := o.getD var 0
       if absR cost > eps then subRow o (rows4.getD i []) cost else o
-    else o) t.obj
-  ⟨.OPTIMAL, r.iters, ⟨rows4, obj4, t3.basis⟩, t2.obj, near || tabNear eps t3⟩
+    else o) origObj
+  ⟨rows4, obj4, t3.basis⟩
+
+/-- `_phase1(matrix, basis, basis_set, m, n, eps, max_iter)`. -/
+def phase1 (eps : Rat) (maxIter n m : Nat) (t : Tab) : P1 :=
+  let nm := n + m
+  let flipped := flippedRows eps m t
+  if flipped.length = 0 then ⟨.OPTIMAL, 0, t, t.obj, false⟩ else
+  let t1 := artTab n m flipped t
+  let r := phase2 eps maxIter 0 t1
+  let near := phase2Near eps maxIter t1
+  let t2 := r.tab
+  if lastR t2.obj < -eps then
+    -- out of iterations before phase 1 finished: infeasibility is not established
+    ⟨if r.status = .MAX_ITER then .MAX_ITER else .INFEASIBLE, r.iters, t2, t2.obj, near⟩ else
+  let t3 := driveOut eps nm t2
+  ⟨.OPTIMAL, r.iters, restoreTab eps nm m t.obj t3, t2.obj, near || tabNear eps t3⟩
 
 /-- What `solve_lp` returns plus the certificate read off the final tableau.
 `cert` : OPTIMAL → dual vector `y`; INFEASIBLE → Farkas vector; UNBOUNDED → ray `d` (the vertex
